@@ -17,13 +17,12 @@ theorem create_B1_eq (b : Bool) (σ : St) (id : Nat) (cs : Int) (hcs : 0 < cs) (
        remaining := (Time.ofCs cs).toUs
        used := id :: σ.used
        live := id :: σ.live
-       badArg := σ.badArg || decide (cs < 0)
        inCrit := false
        pc := .idle
        log := .constructed id σ.now :: .setitimer (Time.ofCs cs).toUs :: .getitimer σ.remaining ::
                 .born id σ.now cs :: σ.log } := by
   obtain ⟨_, _, hnz, hok⟩ := ofCs_facts hcs
-  have hne : cs ≠ 0 := by omega
+  have hne : ¬ cs ≤ 0 := by omega
   have hlt' : (Time.ofCs cs).lt (getTimer σ) = true := hlt
   simp [steps, create, step, hpc, hf, hr, hnz, hok, hne, realDeadline]
   simp [getTimer] at hlt'
@@ -35,11 +34,10 @@ theorem create_B2_eq (b : Bool) (σ : St) (id : Nat) (cs : Int) (hcs : 0 < cs) (
        pending := insertEv ⟨realDeadline σ cs, id, σ.now, cs⟩ σ.pending
        used := id :: σ.used
        live := id :: σ.live
-       badArg := σ.badArg || decide (cs < 0)
        inCrit := false
        pc := .idle
        log := .constructed id σ.now :: .getitimer σ.remaining :: .born id σ.now cs :: σ.log } := by
-  have hne : cs ≠ 0 := by omega
+  have hne : ¬ cs ≤ 0 := by omega
   have hlt' : (Time.ofCs cs).lt (getTimer σ) = false := hlt
   simp [steps, create, step, hpc, hf, hr, hne, realDeadline]
   simp [getTimer] at hlt'
